@@ -139,6 +139,9 @@ func report(eng *Engine, prop, tier, verif string, cfg *PropCfg, res *runResult,
 	if expectFail != "" {
 		re := regexp.MustCompile(expectFail)
 		for _, f := range fails {
+			if matchKnown(known, prop, f.name) != nil {
+				continue // fails on the unchanged tree too (a recorded finding): proves nothing about the change
+			}
 			if re.MatchString(f.name) {
 				fmt.Printf("selftest ok: %s failed as expected (%s)\n", f.name, f.status)
 				return 0
